@@ -419,3 +419,335 @@ Qed.
 
 Theorem send_zero_rejected : forall inv r is_send fc, build_send inv r 0 is_send fc = Err 2.
 Proof. reflexivity. Qed.
+
+(* ------------------------------------------------------------ split: edicts and sums *)
+
+Lemma sum_id_app : forall a b id, sum_id (a ++ b) id = sum_id a id + sum_id b id.
+Proof. intros a b id. unfold sum_id. induction a as [|x a IH]; cbn [app fold_right]; [lia|]. rewrite IH. lia. Qed.
+
+Lemma sum_io_app : forall a b id o, sum_io (a ++ b) id o = sum_io a id o + sum_io b id o.
+Proof. intros a b id o. unfold sum_io. induction a as [|x a IH]; cbn [app fold_right]; [lia|]. rewrite IH. lia. Qed.
+
+Lemma sum_id_insert : forall e l id, sum_id (insert_edict e l) id = sum_id (e :: l) id.
+Proof.
+  intros e l id. induction l as [|x l IH]; cbn [insert_edict]; [reflexivity|].
+  destruct (e_id e <? e_id x); [reflexivity|].
+  unfold sum_id in *. cbn [fold_right] in *. rewrite IH. lia.
+Qed.
+
+Lemma sum_io_insert : forall e l id o, sum_io (insert_edict e l) id o = sum_io (e :: l) id o.
+Proof.
+  intros e l id o. induction l as [|x l IH]; cbn [insert_edict]; [reflexivity|].
+  destruct (e_id e <? e_id x); [reflexivity|].
+  unfold sum_io in *. cbn [fold_right] in *. rewrite IH. lia.
+Qed.
+
+Lemma Forall_insert : forall (P : edict -> Prop) e l, P e -> Forall P l -> Forall P (insert_edict e l).
+Proof.
+  intros P e l He Hl. induction Hl as [|x l Hx Hl IH]; cbn [insert_edict]; [repeat constructor; exact He|].
+  destruct (e_id e <? e_id x); repeat constructor; auto.
+Qed.
+
+Lemma sum_id_sort : forall l id, sum_id (sort_edicts l) id = sum_id l id.
+Proof.
+  intros l id. induction l as [|x l IH]; [reflexivity|]. cbn [sort_edicts fold_right].
+  fold (sort_edicts l). rewrite sum_id_insert. unfold sum_id in *. cbn [fold_right]. rewrite IH. reflexivity.
+Qed.
+
+Lemma sum_io_sort : forall l id o, sum_io (sort_edicts l) id o = sum_io l id o.
+Proof.
+  intros l id o. induction l as [|x l IH]; [reflexivity|]. cbn [sort_edicts fold_right].
+  fold (sort_edicts l). rewrite sum_io_insert. unfold sum_io in *. cbn [fold_right]. rewrite IH. reflexivity.
+Qed.
+
+Lemma Forall_sort : forall (P : edict -> Prop) l, Forall P l -> Forall P (sort_edicts l).
+Proof.
+  intros P l H. induction H as [|x l Hx Hl IH]; [constructor|]. cbn [sort_edicts fold_right].
+  fold (sort_edicts l). apply Forall_insert; assumption.
+Qed.
+
+(* everything a sheet lists for id (equals [get] when keys are distinct) *)
+Definition total (s : sheet) (id : N) : N :=
+  fold_right (fun kv acc => (if fst kv =? id then snd kv else 0) + acc) 0 s.
+
+Lemma total_get : forall s id, uniq s -> total s id = get s id.
+Proof.
+  induction s as [|[k v] r IH]; intros id Hu; [reflexivity|].
+  unfold uniq in Hu. cbn [keys map fst] in Hu. inversion Hu as [|? ? Hn Hr]; subst.
+  unfold total in *. cbn [fold_right get fst snd]. rewrite (IH id Hr).
+  destruct (N.eqb_spec k id) as [->|]; [rewrite (get_absent r id Hn)|]; lia.
+Qed.
+
+Definition mk (k : nat) (kv : N * N) : edict := {| e_id := fst kv; e_amount := snd kv; e_output := k |}.
+
+Lemma sum_id_mk : forall s k id, sum_id (map (mk k) s) id = total s id.
+Proof.
+  induction s as [|kv r IH]; intros k id; [reflexivity|].
+  unfold sum_id, total in *. cbn [map fold_right mk e_id e_amount]. rewrite IH. reflexivity.
+Qed.
+
+Lemma sum_io_mk : forall s k id o, sum_io (map (mk k) s) id o = if Nat.eqb k o then total s id else 0.
+Proof.
+  induction s as [|kv r IH]; intros k id o.
+  { destruct (Nat.eqb k o); reflexivity. }
+  unfold sum_io, total in *. cbn [map fold_right mk e_id e_amount e_output]. rewrite IH.
+  destruct (Nat.eqb k o); rewrite ?andb_true_r, ?andb_false_r; lia.
+Qed.
+
+Definition ds : sout := {| s_value := None; s_threshold := 0; s_runes := [] |}.
+
+Definition need_total (outs : list sout) (id : N) : N :=
+  fold_right (fun o acc => total (s_runes o) id + acc) 0 outs.
+
+Lemma edicts_of_eq : forall outs k,
+  edicts_of outs k = match outs with [] => [] | o :: r => map (mk k) (s_runes o) ++ edicts_of r (S k) end.
+Proof. destruct outs; reflexivity. Qed.
+
+Lemma sum_id_edicts_of : forall outs k id, sum_id (edicts_of outs k) id = need_total outs id.
+Proof.
+  induction outs as [|o r IH]; intros k id; [reflexivity|].
+  rewrite edicts_of_eq, sum_id_app, sum_id_mk, IH. reflexivity.
+Qed.
+
+Lemma sum_io_edicts_of : forall outs k id o,
+  sum_io (edicts_of outs k) id o =
+  if (k <=? o)%nat && (o <? k + length outs)%nat then total (s_runes (nth (o - k) outs ds)) id else 0.
+Proof.
+  induction outs as [|x r IH]; intros k id o.
+  - cbn [edicts_of length]. destruct (Nat.leb_spec k o); destruct (Nat.ltb_spec o (k + 0)); cbn [andb]; try reflexivity; lia.
+  - rewrite edicts_of_eq, sum_io_app, sum_io_mk, IH. cbn [length].
+    destruct (Nat.eqb_spec k o) as [->|Hne].
+    + rewrite Nat.sub_diag. cbn [nth].
+      destruct (Nat.leb_spec (S o) o); [lia|]. cbn [andb].
+      destruct (Nat.leb_spec o o); [|lia]. destruct (Nat.ltb_spec o (o + S (length r))); [|lia]. cbn [andb]. lia.
+    + destruct (Nat.leb_spec (S k) o) as [Hle|Hgt]; cbn [andb].
+      * destruct (Nat.leb_spec k o); [|lia]. cbn [andb].
+        replace (k + S (length r))%nat with (S k + length r)%nat by lia.
+        destruct (Nat.ltb_spec o (S k + length r)); [|lia].
+        replace (o - k)%nat with (S (o - S k)) by lia. cbn [nth]. lia.
+      * destruct (Nat.leb_spec k o); [lia|]. cbn [andb]. lia.
+Qed.
+
+Lemma plain_edicts_of : forall outs k n,
+  Forall (fun o => forall kv, In kv (s_runes o) -> fst kv <> 0 /\ snd kv <> 0) outs ->
+  (k + length outs <= n)%nat -> Forall (plain n) (edicts_of outs k).
+Proof.
+  induction outs as [|o r IH]; intros k n H Hn; [constructor|].
+  rewrite edicts_of_eq. inversion H as [|? ? Ho Hr]; subst. cbn [length] in Hn.
+  apply Forall_app. split.
+  - apply Forall_forall. intros e He. apply in_map_iff in He. destruct He as [kv [<- Hin]].
+    destruct (Ho kv Hin) as [H1 H2]. unfold plain, mk; cbn [e_id e_amount e_output]. repeat split; [exact H1|lia|lia].
+  - apply IH; [exact Hr|lia].
+Qed.
+
+(* ------------------------------------------------------------ split: requirements and selection *)
+
+Lemma required_runes_ok : forall rs req req',
+  required_runes rs req = Ok req' ->
+  (forall id, get req' id = get req id + total rs id) /\
+  (forall kv, In kv rs -> snd kv <> 0) /\ (uniq req -> uniq req').
+Proof.
+  induction rs as [|[id amt] rs IH]; intros req req' H; cbn [required_runes] in H.
+  - inversion H; subst. split; [intros id; unfold total; cbn [fold_right]; lia|]. split; [intros kv []|auto].
+  - destruct (N.eqb_spec amt 0) as [|Hne]; [discriminate|].
+    destruct (overflow (add req id amt)); [discriminate|].
+    destruct (IH _ _ H) as [I1 [I2 I3]]. repeat split.
+    + intros id'. rewrite I1, get_add. unfold total. cbn [fold_right fst snd]. lia.
+    + intros kv [<-|Hin]; [exact Hne|exact (I2 kv Hin)].
+    + intros Hu. apply I3. apply uniq_add. exact Hu.
+Qed.
+
+Lemma required_of_ok : forall outs req req',
+  required_of outs req = Ok req' ->
+  (forall id, get req' id = get req id + need_total outs id) /\
+  Forall (fun o => forall kv, In kv (s_runes o) -> snd kv <> 0) outs /\ (uniq req -> uniq req').
+Proof.
+  induction outs as [|o r IH]; intros req req' H; cbn [required_of] in H.
+  - inversion H; subst. split; [intros id; unfold need_total; cbn [fold_right]; lia|]. split; [constructor|auto].
+  - destruct (required_runes (s_runes o) req) as [req1|e|p] eqn:H1; cbn [bind] in H; try discriminate.
+    destruct (required_runes_ok _ _ _ H1) as [A1 [A2 A3]].
+    destruct (IH _ _ H) as [B1 [B2 B3]]. repeat split.
+    + intros id. rewrite B1, A1. unfold need_total. cbn [fold_right]. lia.
+    + constructor; assumption.
+    + intros Hu. auto.
+Qed.
+
+Lemma select_split_ok : forall inv cands req inputs0 bal0 inputs bal,
+  cands_ok inv cands -> uniq bal0 ->
+  (forall id, get bal0 id = sum_inputs inv inputs0 id) ->
+  select_split cands req inputs0 bal0 = Ok (inputs, bal) ->
+  uniq bal /\ (forall id, get bal id = sum_inputs inv inputs id).
+Proof.
+  intros inv. induction cands as [|[o s] rest IH]; intros req inputs0 bal0 inputs bal Hc Hu Hs H;
+    cbn [select_split] in H.
+  - inversion H; subst. auto.
+  - assert (Hrest : cands_ok inv rest) by (intros o' s' Hin; apply Hc; right; exact Hin).
+    destruct (Hc o s (or_introl eq_refl)) as [Hso Hsu].
+    destruct (wants req bal0 s).
+    + destruct (overflow (merge bal0 s)); [discriminate|].
+      apply (IH req (inputs0 ++ [o]) (merge bal0 s) inputs bal Hrest (uniq_merge s bal0 Hu)); [|exact H].
+      intros id. rewrite get_merge by exact Hsu. rewrite sum_inputs_app, Hs.
+      cbn [sum_inputs fold_right]. rewrite <- Hso. lia.
+    + exact (IH req _ _ inputs bal Hrest Hu Hs H).
+Qed.
+
+Lemma le_of_existsb : forall (s : sheet) (f : N -> N),
+  existsb (fun kv => f (fst kv) <? snd kv) s = false -> forall id, get s id <= f id.
+Proof.
+  induction s as [|[k v] r IH]; intros f H id; cbn [get]; [lia|].
+  cbn [existsb fst snd] in H. apply orb_false_iff in H. destruct H as [H1 H2].
+  destruct (N.eqb_spec k id) as [->|]; [destruct (N.ltb_spec (f id) v); [discriminate|lia]|].
+  apply IH. exact H2.
+Qed.
+
+(* ------------------------------------------------------------ split outcome *)
+
+Lemma nth_allfalse : forall l o, Forall (fun b => b = false) l -> nth o l false = false.
+Proof.
+  induction l as [|b l IH]; intros o H; destruct o; cbn [nth]; auto; inversion H; subst; auto.
+Qed.
+
+Lemma allfalse_repeat : forall n, Forall (fun b => b = false) (repeat false n).
+Proof. induction n; cbn [repeat]; constructor; auto. Qed.
+
+Lemma fold_zero : forall (opret : list bool) (al : list sheet) id (l : list nat),
+  (forall o, nth o opret false = true -> get (nth o al []) id = 0) ->
+  fold_right (fun o acc => (if nth o opret false then get (nth o al []) id else 0) + acc) 0 l = 0.
+Proof.
+  intros opret al id l H. induction l as [|o l IH]; cbn [fold_right]; [reflexivity|].
+  rewrite IH. destruct (nth o opret false) eqn:Hn; [rewrite (H o Hn)|]; lia.
+Qed.
+
+Definition valid_outs (outs : list sout) : Prop :=
+  Forall (fun o => uniq (s_runes o) /\ forall kv, In kv (s_runes o) -> fst kv <> 0) outs.
+
+Lemma need_total_get : forall outs id, valid_outs outs ->
+  need_total outs id = fold_right (fun o acc => get (s_runes o) id + acc) 0 outs.
+Proof.
+  intros outs id H. unfold need_total. induction H as [|o r [Hu _] Hr IH]; cbn [fold_right]; [reflexivity|].
+  rewrite IH, total_get by exact Hu. reflexivity.
+Qed.
+
+Theorem split_exact : forall inv outs postage cd oversize fc t,
+  valid_inv inv -> valid_outs outs ->
+  build_split inv outs postage cd oversize fc = Ok t ->
+  (* no requested amount is zero *)
+  Forall (fun o => forall kv, In kv (s_runes o) -> snd kv <> 0) outs /\
+  (forall id, get (t_spent t) id = sum_inputs inv (t_inputs t) id) /\
+  length (t_dest t) = length outs /\
+  (* output i of the split file receives exactly what it asks for *)
+  (forall i id, (i < length outs)%nat ->
+     out_get (t_opret t) (outcome t) (nth i (t_dest t) 0%nat) id = get (s_runes (nth i outs ds)) id) /\
+  (* nothing is burned *)
+  (forall id, burn_get (t_opret t) (outcome t) id = 0) /\
+  (* every other balance of the spent inputs returns to the wallet *)
+  (forall id, sum_outs t (t_change t) id + need_total outs id = get (t_spent t) id).
+Proof.
+  intros inv outs postage cd oversize fc t Hv Hvo H. unfold build_split in H.
+  destruct outs as [|o0 outs']; [discriminate|]. cbv beta iota in H.
+  assert (Hn1 : (1 <= length (o0 :: outs'))%nat) by (cbn [length]; lia).
+  remember (o0 :: outs') as outs eqn:Eouts. clear Eouts o0 outs'.
+  destruct (postage <? cd); [discriminate|].
+  destruct (required_of outs []) as [req|e|p] eqn:Hreq; cbn [bind] in H; try discriminate.
+  destruct (required_of_ok _ _ _ Hreq) as [Rget [Rnz Ruq]]. specialize (Ruq uniq_nil).
+  destruct (select_split (candidates 0 inv) req [] []) as [[inputs bal]|e|p] eqn:Hsel;
+    cbn [bind] in H; try discriminate.
+  destruct (select_split_ok inv _ req [] [] inputs bal (candidates_ok inv Hv) uniq_nil
+              (fun id => eq_refl) Hsel) as [Hu Hsum].
+  destruct (existsb (fun kv => get bal (fst kv) <? snd kv) req) eqn:Hshort; [discriminate|].
+  pose proof (le_of_existsb req (get bal) Hshort) as Hle.
+  destruct oversize; [discriminate|].
+  destruct (existsb _ outs) in H; [discriminate|].
+  set (nc := existsb (fun kv => get req (fst kv) <? snd kv) bal) in *.
+  set (base := if nc then 2%nat else 1%nat) in *.
+  set (es := sort_edicts (edicts_of outs base)) in *.
+  set (n := length outs) in *.
+  inversion H; subst t; clear H. cbn [t_spent t_inputs t_dest t_change t_opret t_edicts app].
+  set (opret := true :: (if nc then [false] else []) ++ repeat false n ++ (if fc then [false] else [])) in *.
+  assert (Hreqid : forall id, get req id = need_total outs id) by (intros id; rewrite Rget; cbn [get]; lia).
+  assert (Hbase : (1 <= base <= 2)%nat) by (unfold base; destruct nc; lia).
+  assert (Hlen : length opret = (base + n + (if fc then 1 else 0))%nat).
+  { unfold opret, base. cbn [length]. rewrite !app_length, repeat_length. destruct nc, fc; cbn [length]; lia. }
+  assert (Hfirst : exists vs, non_opret 0 opret = 1%nat :: vs).
+  { unfold opret, n in *. destruct nc; cbn [app non_opret]; [eauto|].
+    destruct (length outs) as [|n']; [lia|]. cbn [repeat app non_opret]. eauto. }
+  assert (Hop : forall o, nth o opret false = true -> o = 0%nat).
+  { intros o Ho. destruct o as [|o]; [reflexivity|]. exfalso. unfold opret in Ho. cbn [nth] in Ho.
+    rewrite nth_allfalse in Ho; [discriminate|].
+    apply Forall_app; split; [destruct nc; repeat constructor|].
+    apply Forall_app; split; [apply allfalse_repeat|destruct fc; repeat constructor]. }
+  assert (Hpl : Forall (plain (length opret)) es).
+  { unfold es. apply Forall_sort. apply plain_edicts_of; [|fold n; lia].
+    unfold valid_outs in Hvo. rewrite Forall_forall in *. intros o Ho kv Hkv.
+    split; [exact (proj2 (Hvo o Ho) kv Hkv)|exact (Rnz o Ho kv Hkv)]. }
+  assert (Hsid : forall id, sum_id es id = need_total outs id).
+  { intros id. unfold es. rewrite sum_id_sort. apply sum_id_edicts_of. }
+  assert (Hsle : forall id, sum_id es id <= get bal id) by (intros id; rewrite Hsid, <- Hreqid; apply Hle).
+  pose proof (apply_tx_exact bal es opret Hu Hpl Hsle) as HA. cbv zeta in HA.
+  destruct Hfirst as [vs Hfirst]. rewrite Hfirst in HA.
+  assert (Hsio : forall id o, sum_io es id o =
+            if (base <=? o)%nat && (o <? base + n)%nat then total (s_runes (nth (o - base) outs ds)) id else 0).
+  { intros id o. unfold es. rewrite sum_io_sort. apply sum_io_edicts_of. }
+  (* leftovers: only with a change output *)
+  assert (Hleft : nc = false -> forall id, get bal id - sum_id es id = 0).
+  { intros Hnc id. rewrite Hsid, <- Hreqid.
+    pose proof (le_of_existsb bal (get req) Hnc id). lia. }
+  split; [exact Rnz|]. split; [exact Hsum|]. split; [apply seq_length|].
+  unfold sum_outs, outcome, out_get; cbn [t_spent t_edicts t_opret app]. fold opret. fold es.
+  split; [|split].
+  - intros i id Hi. rewrite seq_nth by exact Hi.
+    destruct (nth (base + i) opret false) eqn:Hnth; [apply Hop in Hnth; lia|].
+    destruct (HA (base + i)%nat id) as [Hg _]. rewrite Hg, Hsio.
+    destruct (Nat.leb_spec base (base + i)); [|lia]. destruct (Nat.ltb_spec (base + i) (base + n)); [|fold n in Hi; lia].
+    cbn [andb]. replace (base + i - base)%nat with i by lia.
+    assert (Hui : uniq (s_runes (nth i outs ds))).
+    { unfold valid_outs in Hvo. rewrite Forall_forall in Hvo. apply Hvo. apply nth_In. exact Hi. }
+    rewrite (total_get _ id Hui).
+    destruct (Nat.eqb_spec 1 (base + i)) as [He|]; [|lia].
+    assert (Hncf : nc = false) by (unfold base in He; destruct nc; [lia|reflexivity]).
+    rewrite (Hleft Hncf id). lia.
+  - intros id. rewrite burn_get_unfold.
+    destruct (HA 0%nat id) as [H0 Hs0]. rewrite Hs0, N.add_0_r.
+    apply fold_zero. intros o Ho. apply Hop in Ho. subst o. rewrite H0, Hsio.
+    destruct (Nat.leb_spec base 0); [lia|]. cbn [andb Nat.eqb]. lia.
+  - intros id.
+    assert (Hbtc : forall o, (base + n <= o)%nat -> get (nth o (fst (apply_tx bal es opret)) []) id = 0).
+    { intros o Ho. destruct (HA o id) as [Hg _]. rewrite Hg, Hsio.
+      destruct (Nat.ltb_spec o (base + n)); [lia|]. rewrite andb_false_r.
+      destruct (Nat.eqb_spec 1 o); [lia|]. lia. }
+    specialize (Hsle id). rewrite Hsid in Hsle.
+    unfold nc in *. destruct (existsb (fun kv => get req (fst kv) <? snd kv) bal) eqn:Hnc.
+    + (* rune change output at index 1 *)
+      cbn [app fold_right]. destruct (HA 1%nat id) as [H1 _].
+      assert (Hn1f : nth 1 opret false = false) by (destruct (nth 1 opret false) eqn:E; [apply Hop in E; lia|reflexivity]).
+      rewrite Hn1f, H1, Hsio. unfold base at 1. cbn [Nat.leb andb Nat.eqb]. rewrite Hsid.
+      destruct fc; cbn [fold_right].
+      * destruct (nth (base + n) opret false); [lia|]. rewrite (Hbtc (base + n)%nat) by lia. lia.
+      * lia.
+    + cbn [app]. specialize (Hleft eq_refl id). rewrite Hsid in Hleft.
+      destruct fc; cbn [fold_right].
+      * destruct (nth (base + n) opret false); [lia|]. rewrite (Hbtc (base + n)%nat) by lia. lia.
+      * lia.
+Qed.
+
+(* a split file asking for zero units of a rune never produces a transaction *)
+Theorem split_zero_never_ok : forall inv outs postage cd oversize fc t,
+  build_split inv outs postage cd oversize fc = Ok t ->
+  Forall (fun o => forall kv, In kv (s_runes o) -> snd kv <> 0) outs.
+Proof.
+  intros inv outs postage cd oversize fc t H. unfold build_split in H.
+  destruct outs as [|o0 outs']; [discriminate|]. cbv beta iota in H.
+  destruct (postage <? cd); [discriminate|].
+  destruct (required_of (o0 :: outs') []) as [req|e|p] eqn:Hreq; cbn [bind] in H; try discriminate.
+  exact (proj1 (proj2 (required_of_ok _ _ _ Hreq))).
+Qed.
+
+(* the first zero amount is reported as such (Err 2) unless a u128 sum overflowed before it *)
+Lemma required_runes_zero : forall rs req, (exists k, In (k, 0) rs) ->
+  (exists p, required_runes rs req = Panic p) \/ required_runes rs req = Err 2.
+Proof.
+  induction rs as [|[id amt] rs IH]; intros req [k Hin]; [destruct Hin|]. cbn [required_runes].
+  destruct (N.eqb_spec amt 0); [right; reflexivity|].
+  destruct (overflow (add req id amt)); [left; eauto|].
+  apply IH. destruct Hin as [Hin|Hin]; [inversion Hin; congruence|eauto].
+Qed.
